@@ -8,13 +8,16 @@ props = [json.loads(l) for l in open(os.path.join(ROOT, "properties.jsonl"))]
 hooks = subprocess.run(["git", "-C", "/repo", "log", "--format=%h %s"], capture_output=True, text=True).stdout.splitlines()
 hook_commits = [l.split()[0] for l in hooks if l.split(" ", 1)[1].startswith("verif hooks")]
 checks, na, served = [], [], []
+# checks/READY lists the properties whose check the lead has reviewed and run green on the unchanged tree;
+# anything else is not claimed yet, whatever is lying in the working tree
+ready = set(open(os.path.join(ROOT, "checks", "READY")).read().split())
 for p in props:
     pid = p["id"]
     try:
         spec = importlib.import_module("checks." + pid.lower())
     except ModuleNotFoundError:
         spec = None
-    if spec is None or not getattr(spec, "CLAIMED", True):
+    if spec is None or not getattr(spec, "CLAIMED", True) or pid not in ready:
         na.append(dict(property_id=pid, reason=getattr(spec, "NA_REASON", "not claimed yet: the Lean model, theorems and correspondence stream for this property are not built (see DESIGN.md section 9 for the build order)")))
         continue
     served.append(pid)
